@@ -84,7 +84,12 @@ class Obs(SequencerObserver):
 
 def _setup(mode):
     """observer modes: none | once | twice (same observer attached twice) | detached | two (two observers)"""
+    # a second sequencer with an observer of its own exists all along: it plays nothing, so it and its observer must see nothing
+    sib = Rec()
+    sib_obs = Obs()
+    sib.attach(sib_obs)
     s = Rec()
+    s.sibling = (sib, sib_obs)
     obs = []
     if mode in ("once", "twice", "detached", "two"):
         o = Obs()
@@ -102,6 +107,9 @@ def _setup(mode):
 
 
 def _check_observers(ctx, s, obs, mode):
+    sib, sib_obs = s.sibling
+    ctx.check(sib.log == [] and sib_obs.log == [] and not sib_obs.high, "observer/another-sequencer-notified",
+              lambda: "a sequencer that played nothing logged %r; its observer received %r" % (sib.log[:4], sib_obs.log[:4]))
     for o in obs:
         if mode == "detached":
             ctx.check(o.log == [] and not o.high, "observer/detached-still-notified", lambda: repr(o.log[:5]))
@@ -363,7 +371,7 @@ OBS = ["none", "once", "twice", "detached", "two"]
 
 def _cfg(**kw):
     base = dict(groups=SG.plain_groups(bases=(1, 2, 4, 8, 16, 32), max_dots=2), min_pitch=0, max_pitch=135, octaves=list(range(0, 11)), bpm_p=5, bpms=st.integers(30, 300),
-                max_bars=3, max_groups=5, max_chord=4, rest_p=4, partial_last=True, instruments=["none"], twin_p=5, subclass_p=8, unsorted_p=6, empty_containers=True, bpm_on_empty=True,
+                max_bars=3, max_groups=5, max_chord=4, rest_p=4, partial_last=True, instruments=["none"], twin_p=5, subclass_p=8, unsorted_p=6, twin_entry_p=6, reuse_p=6, empty_containers=True, bpm_on_empty=True,
                 meters=[[4, 4], [3, 4], [6, 8], [2, 2], [5, 4], [2, 4], [7, 8], [3, 8]])
     base.update(kw)
     return SG.Cfg(**base)
